@@ -162,6 +162,8 @@ def parse_block(lines):
             r["nbexc"] = line
         elif t == "NB":
             r["NB"].append([int(x) for x in w[2:]])
+        elif t == "MAXL":
+            r["MAXL"] = [int(x) for x in w[1:]]
         elif t in ("S", "P", "F"):
             r[t].append([int(x) for x in w[2:]])
         elif t == "U":
@@ -502,12 +504,15 @@ def gen_fa(rng, cid, exact):
     return with_range(rng, c, lambda P: gen_points(rng, P, D, span=8, den=8, distinct=True))
 
 
-def gen_fa_replay(rng, cid, N, D, d, T, eps=0.0):
+def gen_fa_replay(rng, cid, N, D, d, T, eps=0.0, cap=2):
     """the extracted never-stopping trajectory fa_observe (inverse oracle = exact Gauss-Jordan, contract re-checked on
     every call) is replayed for T rounds; with fa_epsilon = 0 the loop runs exactly T rounds, with fa_epsilon > 0 the
     check evaluates the convergence test on the exact trajectory to find the round the loop is left at"""
     c = {"kind": "FA", "id": cid, "N": N, "D": D, "d": d, "maxiter": T, "eps": eps, "srand": rng.randrange(1 << 30),
          "exact": True, "replay_model": True}
+    # exact rationals with 53-bit initial loadings grow fast: the trajectory is computed for at most `cap` rounds (a run
+    # that the model says is still going after that is counted as undecided)
+    c["traj_rounds"] = min(T, cap if D > 1 else cap + 1)
     c["shift"] = [dyad(rng, -16, 16, 4) for _ in range(D)]
     return with_range(rng, c, lambda P: gen_points(rng, P, D, span=8, den=8, distinct=True))
 
@@ -583,7 +588,7 @@ def eval_spe(ctx, exe, mexe, cases, st):
     if not todo:
         return
     # --- specification on the implementation's own logs + correspondence with the model
-    text_spec, text_model, meta = [], [], []
+    text_spec, text_model, text_maxl, meta = [], [], [], []
     for c, r in todo:
         N = c["N"]
         nu = min(c["nupd"], N // 2)
@@ -601,6 +606,8 @@ def eval_spe(ctx, exe, mexe, cases, st):
         if ok_shape:
             text_spec.append(spe_log_text(c, r, nu, k))
             text_model.append(spe_model_text(c, r))
+            text_maxl.append("MAXL\nR %s\n" % " ".join(map(str, c["cols"])))
+    maxl_blocks = model_blocks(ctx, mexe, "".join(text_maxl), len(text_maxl))
     spec_blocks = model_blocks(ctx, mexe, "".join(text_spec), len(text_spec))
     mod_blocks = model_blocks(ctx, mexe, "".join(text_model), len(text_model))
     bi = 0
@@ -612,7 +619,7 @@ def eval_spe(ctx, exe, mexe, cases, st):
         if not ok_shape:
             ctx.violation(pc, "SPE ran %d shuffles for max_iteration=%d (or the log is incomplete)" % (T, c["maxiter"]))
             continue
-        sb, mb = spec_blocks[bi], mod_blocks[bi]
+        sb, mb, xb = spec_blocks[bi], mod_blocks[bi], maxl_blocks[bi]
         bi += 1
         N = c["N"]
         # oracle contract of the hook: every `from` is a permutation
@@ -665,6 +672,15 @@ def eval_spe(ctx, exe, mexe, cases, st):
         if diff:
             ctx.mismatch(pc, diff)
             continue
+        # the max-distance double loop must ask for distance(begin[i], begin[j]), i < j, in order (extracted max_loop_calls)
+        if "MAXL" in r:
+            col = {nm: p_ for p_, nm in enumerate(c["names"])}
+            got = " ".join("%d:%d" % (col.get(r["MAXL"][j], -1), col.get(r["MAXL"][j + 1], -1)) for j in range(0, len(r["MAXL"]) - 1, 2))
+            want = xb[0][6:].strip() if xb and xb[0].startswith("PAIRS") else None
+            if want != got:
+                ctx.mismatch(pc, "max-distance loop: distance callback arguments (pool rows) %s..., model max_loop_calls %s... "
+                                 "(range kind %s)" % (got[:80], str(want)[:80], c.get("rkind")))
+                continue
         if c["global"] and r["PRE"] != N * (N - 1) // 2:
             ctx.mismatch(pc, "global strategy made %d distance calls before the first shuffle, expected N(N-1)/2" % r["PRE"])
             continue
@@ -873,7 +889,7 @@ def eval_pairs(ctx, exe, mexe, cases, st):
     if fa_replay:
         text = []
         for c, r0 in fa_replay:
-            rounds = c["maxiter"]
+            rounds = c.get("traj_rounds", c["maxiter"])
             t = ["FAT %d %d %d %d %d %s" % (rounds, c["N"], c["D"], c["d"], len(c["pool"]), frac_str(c["eps"]))]
             for row in r0["A0"]:
                 t.append("A " + " ".join(frac_str(v) for v in row))
@@ -1005,8 +1021,8 @@ def fa_expected(c, r0, block):
             cur["ic"].append([Fraction(x) for x in w[1:]])
         elif w[0] == "Q":
             cur["q"] = Fraction(w[1])
-    if len(rounds) != c["maxiter"]:
-        raise ValueError("trajectory has %d rounds, expected %d" % (len(rounds), c["maxiter"]))
+    if len(rounds) != c.get("traj_rounds", c["maxiter"]):
+        raise ValueError("trajectory has %d rounds, expected %d" % (len(rounds), c.get("traj_rounds", c["maxiter"])))
     if not rounds:
         # zero rounds: X^T A0 with the centred designated samples
         N, D = c["N"], c["D"]
@@ -1016,7 +1032,7 @@ def fa_expected(c, r0, block):
         return rows, "0"
     eps = c["eps"]
     ll_prev = 0.0
-    left = len(rounds)
+    left = len(rounds) if len(rounds) == c["maxiter"] else None
     for t, rd in enumerate(rounds, start=1):
         det = frac_det(rd["ic"])
         try:
@@ -1031,6 +1047,8 @@ def fa_expected(c, r0, block):
                 left = t
                 break
         ll_prev = ll
+    if left is None:
+        return None, "still-running-after-%d-rounds" % len(rounds)
     return [[float(x) for x in row] for row in rounds[left - 1]["rows"]], str(left)
 
 
@@ -1210,14 +1228,14 @@ def run(ctx):
     st = Stats()
     ctx.note("phase: Coq + extraction + both C++ builds done at %.1f s" % ctx.elapsed())
     # fa_replay shapes: (N, D, d, rounds, fa_epsilon); epsilon > 0 exercises `+ epsilon` in sig and the convergence test
-    fa_quick = [(4, 2, 1, 1, 0.0), (8, 3, 2, 1, 0.0), (4, 1, 1, 1, 0.0), (8, 2, 1, 1, 0.0), (4, 2, 1, 2, 0.0), (4, 1, 1, 2, 0.0),
-                (4, 2, 1, 0, 0.0), (8, 2, 1, 2, 0.25), (4, 2, 1, 3, 1.0), (4, 1, 1, 3, 4.0), (8, 2, 1, 3, 0.5), (4, 2, 1, 2, 0.0625),
-                (4, 1, 1, 3, 0.125), (8, 3, 1, 2, 2.0)]
+    fa_quick = [(4, 2, 1, 1, 0.0), (8, 2, 2, 1, 0.0), (4, 1, 1, 1, 0.0), (8, 2, 1, 1, 0.0), (4, 2, 1, 2, 0.0), (4, 1, 1, 2, 0.0),
+                (4, 2, 1, 0, 0.0), (4, 2, 1, 2, 0.25), (4, 2, 1, 3, 1048576.0), (4, 1, 1, 3, 64.0), (4, 2, 1, 5, 4096.0),
+                (4, 1, 1, 2, 0.0625), (4, 2, 1, 3, 4.0), (8, 1, 1, 3, 1024.0)]
     budget = ({"spe": 260, "bad": 30, "gstress": 40, "lstress": 30, "rp": 60, "fa": 45, "reps": 120000,
                "fa_replay": fa_quick, "polar": [(4, 3), (9, 2), (2, 5)]} if quick else
               {"spe": 3000, "bad": 200, "gstress": 300, "lstress": 200, "rp": 600, "fa": 400, "reps": 2000000,
-               "fa_replay": fa_quick * 3 + [(16, 4, 3, 1, 0.0), (8, 3, 1, 1, 0.0), (4, 3, 2, 1, 0.0), (4, 2, 1, 3, 0.0), (8, 2, 1, 2, 0.0),
-                                            (16, 2, 1, 1, 0.0), (8, 2, 1, 3, 0.03125), (4, 2, 2, 2, 1.0), (8, 1, 1, 4, 0.5)],
+               "fa_replay": fa_quick * 3 + [(16, 4, 3, 1, 0.0), (8, 3, 1, 1, 0.0), (8, 3, 2, 1, 0.0), (4, 3, 2, 1, 0.0), (8, 2, 1, 2, 0.0),
+                                            (16, 2, 1, 1, 0.0), (8, 3, 1, 2, 2.0), (4, 2, 2, 2, 1.0), (4, 1, 1, 4, 0.5)],
                "polar": [(4, 3), (9, 2), (2, 5), (16, 4), (1, 1), (7, 7), (32, 2), (3, 16)]})
     spe, bad, meas, pairs = generate(ctx, rng, budget)
     corp = corpus_cases(ctx)
